@@ -38,6 +38,7 @@ type gthread struct {
 	want   any  // modelled mutex this thread is waiting to acquire (nil: none)
 	wantW  bool
 	cond   func() bool // extra enabling condition of the gate it is parked at (nil: none); called with s.mu held
+	atomic bool        // inside Atomically: injected yields are not scheduling points
 }
 
 // lockModel mirrors the mutexes of instrumented files so that a thread is never
@@ -201,6 +202,19 @@ func (s *gsched) lockHook(m any, write, acquire bool) {
 	s.checkPoison()
 }
 
+// Atomically runs f on the calling (known) thread without stopping at the injected yields
+// inside it: an observation made of several reads is one step of the schedule.
+func (s *gsched) Atomically(f func()) {
+	th := s.current()
+	if th == nil {
+		f()
+		return
+	}
+	th.atomic = true
+	defer func() { th.atomic = false }()
+	f()
+}
+
 func (s *gsched) yield(label string) {
 	s.mu.Lock()
 	if !s.active || s.poison {
@@ -209,6 +223,10 @@ func (s *gsched) yield(label string) {
 	}
 	g := goid()
 	th := s.byG[g]
+	if th != nil && th.atomic {
+		s.mu.Unlock()
+		return
+	}
 	if th == nil {
 		s.nbg++
 		th = &gthread{name: fmt.Sprintf("bg%d", s.nbg), resume: make(chan struct{}), bg: true}
